@@ -52,7 +52,7 @@ def ops_table():
         it = IdxTable(pool, t.entries, t.default, gz, post=lambda i: pool.val(i))
         return it
 
-    Z = dict(ty="Z", eqb="Z.eqb", enc=idenc)
+    Z = dict(ty="Z", eqb="Z.eqb", enc=idenc, poolvals=True)
 
     def g_map(rng):
         f = k2.rand_map(rng, pool)
